@@ -107,3 +107,45 @@ pub fn run(rec: &mut Recorder, seed: u64) -> u64 {
     }
     n
 }
+
+/// Material produced by the FULL build for the reduced-feature probes of C19 (RustCrypto crates only).
+pub fn feature_material(seed: u64) -> serde_json::Value {
+    fn one<B: Backend>(rng: &mut Prng) -> serde_json::Value {
+        let flip = |s: &str| {
+            let mut b = s.as_bytes().to_vec();
+            let i = b.len() - 5;
+            b[i] = if b[i] == b'A' { b'B' } else { b'A' };
+            String::from_utf8(b).unwrap()
+        };
+        let lk = LocalKey::<B>::random().unwrap();
+        let pair = &keys::signing_pairs::<B>(rng, 1)[0];
+        let sk: SecretKey<B> = key_from_bytes(&pair.secret).unwrap();
+        let pk = sk.public_key();
+        let rcp = &keys::pke_pairs::<B>(1)[0];
+        let ppk: PkePub<B> = key_from_bytes(&rcp.public).unwrap();
+        let aad: Vec<u8> = if B::VER >= 3 { b"implicit".to_vec() } else { vec![] };
+        let claims = rng.bytes(70);
+        let footer = rng.bytes(9);
+        let nonce = rng.bytes(if B::VER == 2 { 24 } else { 32 });
+        let tl = UnsealedToken::<B::V, Local, Raw>::new(Raw(claims.clone())).with_footer(footer.clone()).seal(&lk, &aad).unwrap().to_string();
+        let tn = UnsealedToken::<B::V, Local, Raw>::new(Raw(claims.clone())).with_footer(footer.clone()).dangerous_seal_with_nonce(&lk, &aad, nonce.clone()).unwrap().to_string();
+        let tp = UnsealedToken::<B::V, Public, Raw>::new(Raw(claims.clone())).with_footer(footer.clone()).seal(&sk, &aad).unwrap().to_string();
+        let wrapped = rng.bytes(32);
+        let wk: LocalKey<B> = key_from_bytes(&wrapped).unwrap();
+        let cost = if B::VER == 1 || B::VER == 3 { (3u64, 0, 1) } else { (8 * 1024, 1, 1) };
+        json!({
+            "aad": hex::encode(&aad), "claims": hex::encode(&claims), "footer": hex::encode(&footer), "nonce": hex::encode(&nonce),
+            "local_key": hex::encode(key_bytes(&lk)), "secret_key": hex::encode(&pair.secret), "public_key": hex::encode(&pair.public),
+            "public_key_text": pk.to_string(),
+            "token_local": tl, "token_local_bad": flip(&tl), "token_local_from_nonce": tn, "token_public": tp, "token_public_bad": flip(&tp),
+            "sig_deterministic": B::VER != 1,
+            "lid": lk.id().to_string(), "pid": pk.id().to_string(), "sid": sk.id().to_string(),
+            "wrapped_key": hex::encode(&wrapped),
+            "pie": wk.clone().wrap_pie(&lk).unwrap().to_string(),
+            "pw": wk.clone().password_wrap_with_params(b"pass", &dp::pw_params::<B>(cost)).unwrap().to_string(), "pw_pass": hex::encode(b"pass"),
+            "sealed": wk.clone().seal(&ppk).unwrap().to_string(), "pke_secret": hex::encode(&rcp.secret),
+        })
+    }
+    let mut rng = Prng::new(seed, "c19-material");
+    json!({"v1": one::<V1>(&mut rng), "v2": one::<V2>(&mut rng), "v3": one::<V3>(&mut rng), "v4": one::<V4>(&mut rng)})
+}
